@@ -260,3 +260,163 @@ class ImplRules(ImplWorld):
 
 def fmt_bool_(b):
     return "true" if b else "false"
+
+
+# ----------------------------------------------------------------------------------- equality (C15)
+from impl import parse_instance, build_instance  # noqa: E402
+
+
+def _split(ts, sep=";"):
+    out, cur = [], []
+    for t in ts:
+        if t == sep:
+            out.append(cur)
+            cur = []
+        else:
+            cur.append(t)
+    out.append(cur)
+    return out
+
+
+def _op_obj(xs):
+    k = xs[0]
+    ms = xs[1:1 + k]
+    op = jsl.Operation(list(ms) if len(ms) != 1 else ms[0], xs[1 + k])
+    op.job_id, op.position_in_job, op.operation_id = xs[2 + k], xs[3 + k], xs[4 + k]
+    return op, xs[5 + k:]
+
+
+def _sched_from_hist(jobs, hist):
+    inst = build_instance(jobs)
+    d = jsl.Dispatcher(inst)
+    for j, p, m in zip(hist[0::3], hist[1::3], hist[2::3]):
+        try:
+            d.dispatch(inst.jobs[j][p], m)
+        except Exception:  # pylint: disable=broad-except
+            pass
+    return d.schedule
+
+
+class ImplEq(ImplRules):
+    def cmd_eqop(self, ts):
+        a, b = [[int(t) for t in part] for part in _split(ts)]
+        x, _ = _op_obj(a)
+        y, _ = _op_obj(b)
+        self.last_pair = (x, y)
+        return f"{fmt_bool_(x == y)} {fmt_bool_(x != y)} {fmt_bool_(hash(x) == hash(y))}"
+
+    def cmd_eqsop(self, ts):
+        a, b = [[int(t) for t in part] for part in _split(ts)]
+        x, ra = _op_obj(a)
+        y, rb = _op_obj(b)
+        sx = jsl.ScheduledOperation(x, ra[0], ra[1])
+        sy = jsl.ScheduledOperation(y, rb[0], rb[1])
+        self.last_pair = (sx, sy)
+        return f"{fmt_bool_(sx == sy)} {fmt_bool_(sx != sy)}"
+
+    def cmd_eqinst(self, ts):
+        a, b = _split(ts)
+        x = build_instance(parse_instance(a), name="a")
+        y = build_instance(parse_instance(b), name="b")
+        self.last_pair = (x, y)
+        return f"{fmt_bool_(x == y)} {fmt_bool_(x != y)}"
+
+    def cmd_eqsched(self, ts):
+        ia, ha, ib, hb = _split(ts)
+        x = _sched_from_hist(parse_instance(ia), [int(t) for t in ha])
+        y = _sched_from_hist(parse_instance(ib), [int(t) for t in hb])
+        self.last_pair = (x, y)
+        return f"{fmt_bool_(x == y)} {fmt_bool_(x != y)}"
+
+
+# ----------------------------------------------------------------------------------- views / serialisation (C14)
+import json as _json  # noqa: E402
+import math as _math  # noqa: E402
+import os as _os  # noqa: E402
+import tempfile as _tempfile  # noqa: E402
+
+
+def fmt_instance(inst) -> str:
+    out = [str(len(inst.jobs))]
+    for job in inst.jobs:
+        out.append(str(len(job)))
+        for op in job:
+            out.append(str(len(op.machines)))
+            out.extend(str(m) for m in op.machines)
+            out.append(str(op.duration))
+    return " ".join(out)
+
+
+def fmt_sched(schedule) -> str:
+    return " | ".join(" ".join(fmt_sop(x) for x in ms) for ms in schedule.schedule)
+
+
+class ImplViews(ImplEq):
+    def cmd_views(self, ts):
+        I = self.instance
+        ints = lambda l: " ".join(str(int(x)) for x in l)  # noqa: E731
+        if I.is_flexible:
+            mm = "flex " + " / ".join(" ".join(lst(ms) for ms in row) for row in I.machines_matrix)
+        else:
+            mm = "single " + " / ".join(ints(row) for row in I.machines_matrix)
+        obm = " / ".join(" ".join(str(o.operation_id) for o in ops) for ops in I.operations_by_machine)
+        padded = " / ".join(" ".join("nan" if _math.isnan(x) else str(int(x)) for x in row)
+                            for row in I.durations_matrix_array.tolist())
+        try:
+            mpj = lst(int(x) for x in I.max_duration_per_job)
+            mx = str(int(I.max_duration))
+        except ValueError:
+            mpj, mx = "none", "none"
+        return (f"{I.num_jobs} {I.num_machines} {I.num_operations} {fmt_bool_(I.is_flexible)} | "
+                + " / ".join(ints(r) for r in I.durations_matrix) + f" | {mm} | {obm} | {ints(I.machine_loads)} | "
+                + f"{ints(I.max_duration_per_machine)} | {ints(I.job_durations)} | {I.total_duration} | {mpj} | {mx} | {padded}")
+
+    def cmd_dict(self, ts):
+        d = self.instance.to_dict()
+        d2 = _json.loads(_json.dumps(d))
+        back = jsl.JobShopInstance.from_matrices(**d2)
+        self.last_roundtrip = (self.instance, back, d)
+        return fmt_instance(back)
+
+    def cmd_taillard(self, ts):
+        I = self.instance
+        if I.is_flexible:
+            return "n/a"
+        text = f"# comment\n{I.num_jobs} {I.num_machines}\n" + "\n".join(
+            " ".join(f"{op.machine_id} {op.duration}" for op in job) for job in I.jobs) + "\n"
+        with _tempfile.TemporaryDirectory() as d:
+            path = _os.path.join(d, "verif_inst.txt")
+            with open(path, "w", encoding="utf-8") as f:
+                f.write(text)
+            back = jsl.JobShopInstance.from_taillard_file(path, key="value")
+        self.last_roundtrip = (I, back, None)
+        return fmt_instance(back)
+
+    def cmd_seqs(self, ts):
+        d = self.dispatcher.schedule.to_dict()
+        return " / ".join(" ".join(map(str, row)) for row in d["job_sequences"])
+
+    def _from_seqs(self, seqs):
+        try:
+            s = jsl.Schedule.from_job_sequences(self.instance, seqs)
+        except jsl.job_shop_lib.exceptions.ValidationError:
+            return "raise"
+        except Exception:  # pylint: disable=broad-except
+            return "error"
+        self.last_rebuilt = s
+        return "ok " + fmt_sched(s)
+
+    def cmd_rebuild(self, ts):
+        d = self.dispatcher.schedule.to_dict()
+        self.last_rebuilt = None
+        return self._from_seqs(d["job_sequences"])
+
+    def cmd_jobseq(self, ts):
+        xs = [int(t) for t in ts]
+        n, i, seqs = xs[0], 1, []
+        for _ in range(n):
+            k = xs[i]
+            seqs.append(xs[i + 1:i + 1 + k])
+            i += k + 1
+        self.last_rebuilt = None
+        return self._from_seqs(seqs)
